@@ -80,7 +80,9 @@ def bptk_path(hist, rng, R):
     try:
         scen = {"runspecs": {"starttime": run["start"], "stoptime": run["stop"], "dt": run["dt100"] / 100.0},
                 "properties": {}, "agents": [{"name": c[0], "count": c[1], "properties": A.prop_v(c[2])} for c in cfg["cfg"]]}
-        b.register_scenario_manager({"smAbm": {"type": "abm", "model": m, "scenarios": {"sc": scen}}})
+        import copy as _copy
+        # two scenarios with the same population and script: one run_scenarios call runs both, each must report its own run
+        b.register_scenario_manager({"smAbm": {"type": "abm", "model": m, "scenarios": {"sc": scen, "sc2": _copy.deepcopy(scen)}}})
         tab = expected_table(run)
         populated = {(ty, st) for (ty, st, k), col in tab.items() if k == "count" and any(v > 0 for v in col.values())}
         bad = []
@@ -96,24 +98,26 @@ def bptk_path(hist, rng, R):
         kinds = rng.choice([["total"], ["mean", "max"], ["min", "max", "mean", "total"], ["min"]])
         for fmt in ("df", "dict", "json"):
             b.reset_scenario_cache(scenario_manager="smAbm", scenario="sc") if False else None
-            res = b.run_scenarios(scenario_managers=["smAbm"], scenarios=["sc"], agents=sel_agents, agent_states=sel_states,
+            both = fmt == "df"
+            res = b.run_scenarios(scenario_managers=["smAbm"], scenarios=["sc", "sc2"] if both else ["sc"], agents=sel_agents, agent_states=sel_states,
                                   agent_properties=["v"], agent_property_types=kinds, return_format=fmt)
             R.add("bptk_results_compared")
             if fmt == "json":
                 res = json.loads(res) if isinstance(res, str) else res
-            for ty in sel_agents:
+            for scn in (("sc", "sc2") if both else ("sc",)):
+              for ty in sel_agents:
                 for st in sel_states:
                     for k in kinds:
                         exp = tab[(ty, st, k)]
                         try:
                             if fmt == "df":
-                                got = _series(res["smAbm_sc_%s_%s_v_%s" % (ty, st, k)])
+                                got = _series(res["smAbm_%s_%s_%s_v_%s" % (scn, ty, st, k)])
                             else:
-                                got = _series(res["smAbm"]["sc"]["agents"][ty][st]["properties"]["v"][k])
+                                got = _series(res["smAbm"][scn]["agents"][ty][st]["properties"]["v"][k])
                         except Exception as e:
-                            bad.append(("run_scenarios(%s) %s/%s/%s" % (fmt, ty, st, k), "present", "%s: %s" % (type(e).__name__, e)))
+                            bad.append(("run_scenarios(%s) %s: %s/%s/%s" % (fmt, scn, ty, st, k), "present", "%s: %s" % (type(e).__name__, e)))
                             continue
-                        bad += _cmp_cells(exp, got, "run_scenarios(%s) %s_%s_v_%s" % (fmt, ty, st, k))
+                        bad += _cmp_cells(exp, got, "run_scenarios(%s) %s: %s_%s_v_%s" % (fmt, scn, ty, st, k))
             # counts (no properties selected)
             res = b.run_scenarios(scenario_managers=["smAbm"], scenarios=["sc"], agents=sel_agents, agent_states=sel_states, return_format=fmt)
             if fmt == "json":
@@ -173,7 +177,12 @@ def run(tier, replay_file=None):
     h3 = [h for h in h3 if h[0]["op"] == "Configure" and h[-1]["op"] == "Run" and all(x["op"].startswith("Plan") for x in h[1:-1])]
     R.cov["bptk_histories"] = len(h3)
     for hist in h3:
-        bad = bptk_path(hist, rng, R)
+        try:
+            bad = bptk_path(hist, rng, R)
+        except common.Machinery:
+            raise
+        except Exception as e:      # the implementation failed where the specification has a run
+            bad = [("bptk.run_scenarios raised", "results", "%s: %s" % (type(e).__name__, str(e)[:160]))]
         R.add("traces_validated_against_impl")
         if bad:
             c, e, g = bad[0]
